@@ -63,10 +63,6 @@ Print Assumptions mips_jr_target_read_after_slot_refuted.
 Theorem mips_unaligned_lw_refuted : witness_ok true 4198400 [2349334529] (mksample [] 0 0 7) = false.
 Proof. exact unaligned_lw_refuted. Qed.
 Print Assumptions mips_unaligned_lw_refuted.
-Theorem mips_div_by_zero_refuted : witness_ok true 4198400 [16777242] (mksample [(8, 5)] 0 0 0) = false.
-Proof. exact div_by_zero_refuted. Qed.
-Print Assumptions mips_div_by_zero_refuted.
-
 (* the hypotheses are satisfiable: the sampled states of the check are well formed and embedded *)
 Example mips_hypotheses_satisfiable :
   let s := mk_mstate true 4198400 (mksample [(8, 5)] 1 2 3) in
